@@ -268,6 +268,16 @@ H("k02f_block_structure", "process", ["C02", "C08", "C05"], tier="experimental",
              "DeflateWriter::encode_block", "DeflateWriter::flush_with_padding"],
   bounds="every list of <= 3 blocks, each stored (<= 2 bytes, any 5 padding bits) or fixed-Huffman with <= 2 literals; max_token_count any u16 >= 1; any final padding byte; no dictionary (HashAlgorithm::None)",
   outside="dynamic blocks (need the Huffman length calculator over 316 symbols), reference tokens (k02e)", assumptions=FIXED_ASSUME[:1] + ["recording codec Rec"])
+for nb, tier in ((1, "quick"), (2, "quick"), (3, "quick")):
+    H("k02p_block_sequence_%d" % nb, "process", ["C02", "C08", "C05"], tier=tier, unwind=6, unwindset={"block_sequence": 6, "predict_blocks": nb + 2, "recreate_blocks": nb + 2}, timeout=1800, mem_gb=16,
+      claim="block sequence / EOF signalling mirror: the REAL encode_mispredictions / predict_blocks / decode_mispredictions / recreate_blocks, over contract stubs of the per-block mirrors, hand the writer exactly the original block list (order, types, each dynamic block with its own Huffman header, final flag on the last block only), restore the trailing padding and consume the corrections exactly; predict_block gets last_block only for the last block",
+      functions=["process::encode_mispredictions", "process::predict_blocks", "process::decode_mispredictions", "process::recreate_blocks", "TokenPredictor::new", "TokenPredictor::input_eof"],
+      bounds="block lists of exactly %d block(s); per block: any type, plaintext length 0..=2 (incl. empty blocks before, between and after the plaintext), any Huffman header tag; any trailing padding byte; predict_block may fail at any call" % nb,
+      outside="more than 3 blocks; what happens inside the per-block mirrors (k02m_*, k02b, k07c)",
+      assumptions=["TokenPredictor::predict_block / recreate_block replaced by contract stubs (record / replay of block type, identity and plaintext length; input advanced by the plaintext length; discharged by k02m_contract_mirror_*)",
+                   "predict_tree_for_block / recreate_tree_for_block replaced by a marker pair carrying the header's identity (discharged by k02b_ld_mirror_*, k07c)",
+                   "DeflateWriter::encode_block / flush_with_padding replaced by loggers (the writer itself: k07a, k07w, k07x)",
+                   "parse_deflate's postcondition assumed: plain_text is the concatenation of the blocks' plaintext", "recording codec Rec", "no dictionary (HashAlgorithm::None)"])
 H("k03e_consumed_prefix", "process", ["C03", "C02", "C05"], tier="thorough", unwind=10, timeout=3000, mem_gb=12,
   claim="parse_deflate: compressed_size is the byte cursor after the final block; bytes after it influence nothing (replaced or removed: same result)",
   functions=["process::parse_deflate", "DeflateReader::read_block (stored)", "DeflateReader::read_eof_padding"], bounds="all 8-byte inputs whose single final block is stored (payload 0..=3)")
@@ -289,6 +299,8 @@ K4("k03a_tables", "preflate_constants", "length/distance base and extra tables e
    ["quantize_length", "quantize_distance", "LENGTH_/DIST_ BASE/EXTRA tables", "TREE_CODE_ORDER_TABLE"], "all 29/30 codes, all lengths 3..=258, all distances 1..=32768", unwind=3, timeout=600, also=["C03", "C07"])
 K4("k04d_zlib_lengths_3", "huffman_calc", "zlib-style Huffman length calculation returns the reference build's code lengths (tie-breaks included)", ["huffman_calc::calc_zlib::calc_bit_lengths", "pqdownheap"],
    "3 symbols, frequencies 0..=3, limit 7", unwind=8, timeout=1500, mem_gb=16, outside="more symbols / larger frequencies: a tie-break change that needs > 4 symbols escapes", tier="experimental")
+K4("k04d_zlib_lengths_single", "huffman_calc", "degenerate cases of the zlib-style length calculation (no symbol, or exactly one symbol used) return the reference build's code lengths: which dummy second symbol completes a one-symbol code is part of the stored format", ["huffman_calc::calc_zlib::calc_bit_lengths"],
+   "6-symbol alphabets with at most one non-zero frequency (any position, any value), limits 15 and 7", unwind=9, unwindset={"zlib_single": 10}, timeout=1500, mem_gb=16, outside="two or more used symbols (k04d_zlib_lengths_3/4, experimental)")
 K4("k04d_zlib_lengths_4", "huffman_calc", "as k04d_zlib_lengths_3 with 4 symbols", ["huffman_calc::calc_zlib::calc_bit_lengths"], "4 symbols, frequencies 0..=3, limit 7", unwind=9, timeout=3000, mem_gb=20, tier="experimental")
 K4("k04e_rle_predictor_equiv", "tree_predictor", "predict_code_type / predict_code_data return the reference build's prediction", ["predict_code_type", "predict_code_data"],
    "every slice of 1..=12 code lengths, with/without previous code, every code type", unwind=14, timeout=900)
@@ -387,6 +399,24 @@ H("k07c_dyn_header_rt", "huffman_encoding", ["C07", "C05", "C03"], tier="thoroug
   bounds="HLIT = 257, HDIST = 1, HCLEN = 5 with the code-length code {0:2, 8:2, 18:2, 16:3, 17:3} (concrete); all sequences of run-length items and extra bits that fit in 16 bit-reader calls (symbolic)",
   outside="other code-length codes, HLIT/HDIST slack, tables longer than 16 reads", assumptions=["scripted + symbolic recording bit source (ReadBits seam)", "BitWriter::flush_whole_bytes replaced by a non-reallocating equivalent"])
 
+for sfx, tbl in (("257_1", "HLIT 257, HDIST 1"), ("286_30", "HLIT 286, HDIST 30"), ("288_32", "HLIT 288, HDIST 32 (the fields' maxima)")):
+    H("k07e_dyn_header_read_post_" + sfx, "huffman_encoding", ["C05", "C07", "C03"], tier="quick", unwind=8, unwindset={"dyn_header_post": 22, "HuffmanOriginalEncoding.*read": 21}, timeout=1500, mem_gb=20,
+      claim="HuffmanOriginalEncoding::read: Ok implies the counts equal the fields read, HCLEN in range, the code-length code stored in RFC order with zeros beyond HCLEN, every run-length item inside its range, and the items covering exactly HLIT + HDIST entries (what predict_ld_trees asserts and write() relies on); never a panic",
+      functions=["HuffmanOriginalEncoding::read", "HuffmanOriginalEncoding::get_tree_code_adjustment"],
+      bounds=tbl + " (concrete per instance); every HCLEN, every code-length code, every sequence of <= 6 run-length symbols (incl. invalid symbol 19) with every extra-bits value; tables needing more than 6 items are cut by the read budget",
+      outside="tables of more than 6 run-length items (k07c in the thorough tier: 16 reads over a concrete code); other HLIT / HDIST values", assumptions=["calculate_huffman_code_tree replaced by its contract (Err or a tree; discharged by k03d / k07d)", "decode_symbol replaced by its contract (Err, or any u16 <= 19 after consuming one bit)", "scripted + symbolic recording bit source (ReadBits seam) with a read budget of 34 calls"])
+H("k03h_dyn_lengths_expand", "huffman_encoding", ["C03", "C07", "C04"], tier="quick", unwind=8, unwindset={"k03h": 12, "rfc_expand": 140, "dyn_lengths_shape": 20, "get_literal_distance_lengths": 140, "to_vec|ConvertVec|clone_from_slice|spec_extend": 260}, timeout=1500, mem_gb=16,
+  claim="the code lengths both the reader and the writer of a dynamic block build their Huffman codes from (HuffmanOriginalEncoding::get_literal_distance_lengths) equal the RFC 1951 3.2.7 expansion of the run-length items split at HLIT: no symbol added, dropped or moved (a repeat may cross the literal/distance boundary)",
+  functions=["HuffmanOriginalEncoding::get_literal_distance_lengths"],
+  bounds="three concrete item layouts (HLIT 257 with HDIST 3 / 6 / 15: two long zero runs, explicit lengths, a repeat crossing into the distance code, a short zero run); every code length value 0..=15 symbolic",
+  outside="other layouts; the Huffman code built from these lengths (k03d fixed code, k07d)")
+for sfx, shp in (("exact", "predicted counts right: calculator returns 257 / 1 / 19 entries, header HLIT 257, HDIST 1"), ("grow", "predicted counts too small: calculator returns 257 / 1 / 11 entries, header HLIT 286, HDIST 30"), ("shrink", "predicted counts too large: calculator returns 286 / 30 / 4 entries, header HLIT 257, HDIST 1")):
+    H("k02c_tree_mirror_" + sfx, "tree_predictor", ["C02", "C08", "C05"], tier="experimental", unwind=8, unwindset={"tree_mirror_shape": 21, "calc_bit_lengths": 21, "predict_tree_for_block": 21, "recreate_tree_for_block": 21, "predict_code_type": 140, "predict_code_data": 140, "calc_tc_lengths": 21, "calc_codetree_freq": 8, "predict_ld_trees": 8, "reconstruct_ld_trees": 8, "from_elem|resize|extend_with|append|ConvertVec|to_vec": 330, "sum|fold": 8}, timeout=2400, mem_gb=24,
+      claim="recreate_tree_for_block(predict_tree_for_block(header)) == header: HLIT / HDIST / HCLEN corrections (in both directions), order of the corrections, run-length items, the code-length code walked in RFC order over HCLEN entries, corrections consumed exactly",
+      functions=["tree_predictor::predict_tree_for_block", "tree_predictor::recreate_tree_for_block", "tree_predictor::predict_ld_trees", "tree_predictor::reconstruct_ld_trees", "tree_predictor::calc_codetree_freq", "tree_predictor::calc_tc_lengths_without_trailing_zeros", "predict_code_type", "predict_code_data"],
+      bounds=shp + " (sizes and item layout concrete: long zero runs then three explicit code lengths); HCLEN 4..=19, the code-length code, the explicit code lengths and the calculator's non-zero outputs symbolic",
+      outside="other layouts (k02b_ld_mirror_* covers the run-length mirror for arbitrary short vectors); the length calculator itself",
+      assumptions=["huffman_calc::calc_bit_lengths replaced by a deterministic stand-in (both sides call it with equal arguments): concrete output sizes, zeros except the last three literal entries, first / last distance entry and the whole code-length-code vector, which are symbolic", "recording codec Rec"])
 H("k01a_scan_tiling_paths", "scan_deflate", ["C01", "C05"], tier="experimental", unwind=5, unwindset=SCAN_UW, timeout=3600, mem_gb=30, cbmc_extra=["--paths", "lifo"],
   claim="experimental: k01a_scan_tiling_pairs under CBMC path-based exploration (no path merging, so the cursor stays concrete on each path)",
   functions=["scan_deflate::split_into_deflate_streams"], bounds=SCAN_BOUNDS, assumptions=SCAN_CONTRACTS)
@@ -418,6 +448,12 @@ for n, tier, uw in ((1, "quick", 3), (2, "quick", 4), (3, "quick", 5)):
        ["TokenPredictor::predict_block", "TokenPredictor::predict_token", "TokenPredictor::repredict_reference", "TokenPredictor::commit_token"],
        "6-byte text, cursor at 1, blocks of exactly %d token(s); text, token kinds/lengths/distances, parameters (estimator_range), block type, last flag and the matcher's answer tables symbolic" % n,
        tier=tier, unwind=6, unwindset={"predict_equiv": 26, "predict_ops_contract": 4, "predict_block": uw, "valid_reference": 14, "try_from_fn_erased": 16}, timeout=3600, mem_gb=30)
+for nm, what, geo in (("match_equiv_o0", "match_token_offset::<0>", "near"), ("match_equiv_o1", "match_token_offset::<1>", "near"), ("hops_equiv", "calculate_hops", "near"), ("hop_match_equiv", "hop_match", "near"),
+                      ("match_equiv_o0_far", "match_token_offset::<0>", "far"), ("match_equiv_o1_far", "match_token_offset::<1>", "far"), ("hops_equiv_far", "calculate_hops", "far")):
+    K4("k04n_" + nm, "hash_chain_holder", "the real %s returns the reference build's answer for the same text, cursor, parameters and candidate lists (window / start-of-file / 3-byte-distance limits, nice-length cut-off, chain depth accounting, hop numbering are part of the stored format)" % what,
+       ["HashChainHolderImpl::match_token_offset", "HashChainHolderImpl::calculate_hops", "HashChainHolderImpl::hop_match", "prefix_compare"],
+       ("12-byte text, cursor anywhere with >= 3 bytes left" if geo == "near" else "258-byte text, cursor 252 (251 for offset 1) bytes in, window_bits = 9: the window limit 2^9 - 262 + 1 = 251 lies inside the reachable distances") + "; <= 3 candidates per offset with any distances inside the text, parameters in estimator_range, text symbolic",
+       tier="quick", unwind=6, unwindset={"matcher_equiv": 6, "valid_reference": (14 if geo == "near" else 262), "prefix_compare": (14 if geo == "near" else 10), "match_token_offset": 6, "calculate_hops": 6, "hop_match": 10, "from_fn|iterate": 6}, timeout=2400, mem_gb=24)
 # ---------------------------------------------------------------- thorough-tier deepenings (same lemmas, larger bounds)
 H("k01e_idat_more_layouts", "idat_parse", ["C01", "C05", "C06"], tier="thorough", unwind=6, unwindset=IDAT_UW, timeout=2400, mem_gb=24,
   claim="parse_idat totality / postconditions / acceptance on further layouts", functions=IDAT_FUNCS[:1], bounds="layouts (12), (3,4)+5 trailing, (5,1), (2,2)+9 trailing; content symbolic", assumptions=IDAT_ASSUME)
